@@ -258,7 +258,22 @@ class Sim(object):
                     pipe.deliver(self._deliver_amount(pipe))
                 if udp:
                     self.net.udp_deliver_one(0)
-                self.world.advance_to(self.world.now_ns + self.deliver_latency_ns)
+                # the one-way delay passes; timers that come due on the way fire at their own time, not at the end of the tick
+                target = self.world.now_ns + self.deliver_latency_ns
+                for _guard in range(1000):
+                    nxt = self.world.next_timer_ns()
+                    if nxt is None or nxt >= target:
+                        break
+                    if nxt > self.world.now_ns:
+                        self.world.advance_to(nxt)
+                    ran = False
+                    for node in self.world.ready_nodes():
+                        if any(kind != 'idle' for kind in node.ready_kinds()):
+                            node.iteration()
+                            ran = True
+                    if not ran:
+                        break
+                self.world.advance_to(target)
             elif udp and (not pipes or rng.random() < 0.5):
                 self.net.udp_deliver_one(0)
             else:
